@@ -23,6 +23,34 @@ fn doc_of_first_member(src: &str) -> Result<(Option<String>, Option<String>), St
     }
 }
 
+// the documentation of one construct of a document built from a frame (see `frames` below)
+fn doc_of(src: &str, kind: &str) -> Result<Option<String>, String> {
+    let s = src.to_owned();
+    let k = kind.to_owned();
+    let r = panic::catch_unwind(move || {
+        let mut parser = Parser::new();
+        parser.add_content(0, &s);
+        let res = parser.validate();
+        if res[&0].diagnostics.iter().any(|d| d.kind == aidl_parser::diagnostic::DiagnosticKind::Error) { return Err(format!("unexpected Error diagnostics {:?}", res[&0].diagnostics.iter().map(|d| d.message.clone()).collect::<Vec<_>>())); }
+        let a = match res[&0].ast.clone() { Some(a) => a, None => return Err("no tree".to_owned()) };
+        Ok(match (k.as_str(), a.item) {
+            ("item-interface", Item::Interface(i)) => i.doc,
+            ("item-parcelable", Item::Parcelable(p)) => p.doc,
+            ("item-enum", Item::Enum(e)) => e.doc,
+            ("method", Item::Interface(i)) => match &i.elements[1] { InterfaceElement::Method(m) => m.doc.clone(), _ => return Err("not a method".into()) },
+            ("const", Item::Interface(i)) => match &i.elements[1] { InterfaceElement::Const(c) => c.doc.clone(), _ => return Err("not a const".into()) },
+            ("arg", Item::Interface(i)) => match &i.elements[0] { InterfaceElement::Method(m) => m.args[1].doc.clone(), _ => return Err("not a method".into()) },
+            ("field", Item::Parcelable(p)) => match &p.elements[1] { ParcelableElement::Field(f) => f.doc.clone(), _ => return Err("not a field".into()) },
+            ("enum-element", Item::Enum(e)) => e.elements[1].doc.clone(),
+            _ => return Err("frame and tree disagree".into()),
+        })
+    });
+    match r {
+        Ok(x) => x,
+        Err(e) => Err(format!("PANIC: {}", e.downcast_ref::<String>().cloned().or_else(|| e.downcast_ref::<&str>().map(|s| s.to_string())).unwrap_or_default())),
+    }
+}
+
 #[test]
 fn c18_all() {
     panic::set_hook(Box::new(|_| {}));
@@ -42,6 +70,59 @@ fn c18_all() {
                             println!("WITNESS item doc = {:?}, expected {:?}; source: {:?}", idoc, w, src); ok = false;
                         }
                     }
+                    Err(e) => { println!("WITNESS {} ; source: {:?}", e, src); ok = false; }
+                }
+            }
+        }
+    }
+    // ---- every documentable construct x gap shapes (ordinary comments whose text holds any punctuation but '/' and '*') ----
+    let frames: [(&str, &str, &str); 8] = [
+        ("item-interface", "package p; ", "interface I { void z(); }"),
+        ("item-parcelable", "package p; ", "parcelable P { int z; }"),
+        ("item-enum", "package p; ", "enum E { Z }"),
+        ("method", "package p; interface I { void a(); ", "void f(); }"),
+        ("const", "package p; interface I { void a(); ", "const int K = 1; }"),
+        ("arg", "package p; interface I { void f(int a, ", "int b); }"),
+        ("field", "package p; parcelable P { int a; ", "int x; }"),
+        ("enum-element", "package p; enum E { A, ", "B }"),
+    ];
+    let mut gaps2: Vec<String> = ["", " ", "\n", "\r\n  ", " /* plain */ ", " // line\n", " // void foo(int a);\n", " // OLD = 0,\r\n", " // enum Old {\n", " // }\n", " // call(\n",
+        " /* a; b, {c} (d) */\n", " // é中;\n", " // one\n // two;\n", " /* x */ // y,\n /* z( */ ", " //\n", " /**/ ", " // x\r\n\r\n"].iter().map(|s| s.to_string()).collect();
+    for c in ";,{}()[]<>=.-@\"'#!$%^&~|\\?:+_".chars() { gaps2.push(format!(" // a{}\n", c)); gaps2.push(format!(" /* a{} */ ", c)); gaps2.push(format!(" // {}b\n", c)); }
+    let full = std::env::var("ORACLE_FULL").map(|v| v == "1").unwrap_or(false);
+    for (fi, (kind, before, after)) in frames.iter().enumerate() {
+        for (gi, g) in gaps2.iter().enumerate() {
+            // the quick tier pairs every gap with two frames (rotating), the thorough tier takes the full product
+            if !full && gi >= 18 && (gi + fi) % 4 != 0 { continue; }
+            for ann in ["", "@Ann ", "@Ann(k=1) @B "].iter() {
+                if !full && !ann.is_empty() && (gi + fi) % 3 != 0 { continue; }
+                let w = words[(gi + fi) % words.len()];
+                // (what precedes the construct, the documentation it must get)
+                let variants: [(String, Option<String>); 6] = [
+                    (format!("/** {} */{}", w, g), Some(w.to_string())),
+                    (format!("{}", g), None),
+                    (format!("/* {} */{}", w, g), None),
+                    (format!("/** one */ /** {} */{}", w, g), Some(w.to_string())),
+                    (format!("/** {} */ /* between */{}", w, g), Some(w.to_string())),
+                    (format!("/** {} */ // between\n{}", w, g), Some(w.to_string())),
+                ];
+                for (pre, want) in variants.iter() {
+                    let src = format!("{}{}{}{}", before, pre, ann, after);
+                    n += 1;
+                    match doc_of(&src, kind) {
+                        Ok(got) => if got != *want { println!("WITNESS {} doc = {:?}, expected {:?}; source: {:?}", kind, got, want, src); ok = false; },
+                        Err(e) => { println!("WITNESS {} ; source: {:?}", e, src); ok = false; }
+                    }
+                }
+            }
+            // a doc comment that belongs to the PREVIOUS member never attaches to this one
+            let prev = match *kind { "method" | "const" => Some(("package p; interface I { /** prev */ void a(); ", *after)), "field" => Some(("package p; parcelable P { /** prev */ int a; ", *after)),
+                "enum-element" => Some(("package p; enum E { /** prev */ A, ", *after)), "arg" => Some(("package p; interface I { void f(/** prev */ int a, ", *after)), _ => None };
+            if let Some((b, a)) = prev {
+                let src = format!("{}{}{}", b, g, a);
+                n += 1;
+                match doc_of(&src, kind) {
+                    Ok(got) => if got.is_some() { println!("WITNESS {} took the previous member's doc {:?}; source: {:?}", kind, got, src); ok = false; },
                     Err(e) => { println!("WITNESS {} ; source: {:?}", e, src); ok = false; }
                 }
             }
